@@ -15,3 +15,9 @@ func VerifLetterSpacing(g Glyph) (start, end fixed.Int26_6) {
 func VerifSetLetterSpacing(g *Glyph, start, end fixed.Int26_6) {
 	g.startLetterSpacing, g.endLetterSpacing = start, end
 }
+
+// VerifPairedDelims returns a copy of the paired delimiter table used by the
+// script itemization (runtime monitors only; pure accessor).
+func VerifPairedDelims() []rune {
+	return append([]rune(nil), pairedDelims[:]...)
+}
